@@ -26,7 +26,7 @@ std::unique_ptr<DW> objs[NOBJ + 1];
 std::unique_ptr<trompeloeil::expectation> mons[NMON + 1];
 
 struct Fatal {};
-struct Rep { int sev; std::string file; unsigned long line; std::string msg; };
+struct Rep { int sev; std::string file; unsigned long line; std::string msg; long t; };
 struct Cl { int k, s, i, r; };
 struct Hook { std::string name; long ticket; int held; long shared; };
 
@@ -131,7 +131,7 @@ static void emit(char const* op, std::vector<int> const& a, int acc, int ret, st
   o << "],\"skip\":" << skip << ",\"acc\":" << acc << ",\"ret\":" << ret << ",\"thr\":\"" << jesc(thr) << "\",\"q\":[" << q1 << "," << q2 << "],\"reps\":[";
   for (size_t i = 0; i < tl.reps.size(); ++i)
     o << (i ? "," : "") << "{\"r\":1,\"sev\":" << tl.reps[i].sev << ",\"file\":\"" << jesc(base(tl.reps[i].file)) << "\",\"line\":" << tl.reps[i].line
-      << ",\"msg\":\"" << jesc(tl.reps[i].msg) << "\"}";
+      << ",\"t\":" << tl.reps[i].t << ",\"msg\":\"" << jesc(tl.reps[i].msg) << "\"}";
   o << "],\"oks\":[";
   for (size_t i = 0; i < tl.oks.size(); ++i) o << (i ? "," : "") << "{\"r\":1,\"msg\":\"" << jesc(tl.oks[i]) << "\"}";
   o << "],\"trs\":[],\"probe\":[],\"cl\":[";
@@ -218,7 +218,9 @@ static int run_segment(Seg const& sg, unsigned seed)
   trompeloeil::verif::event_sink() = on_event;
   trompeloeil::set_reporter(
     [](trompeloeil::severity s, char const* file, unsigned long line, std::string const& msg) {
-      tl.reps.push_back({s == trompeloeil::severity::fatal ? 0 : 1, file ? file : "", line, msg});
+      VMutex* mx = g_mutex.load();
+      long t = mx && mx->held_by_me() ? mx->current_ticket() : 0;      // the critical section the report was sent from
+      tl.reps.push_back({s == trompeloeil::severity::fatal ? 0 : 1, file ? file : "", line, msg, t});
       if (s == trompeloeil::severity::fatal) throw Fatal{};
     },
     [](char const* m) { tl.oks.push_back(m ? m : ""); });
